@@ -256,6 +256,21 @@ def check_labels(prog, rep, m):
                 return False
             ok = len(f.params) >= 3 and any(isinstance(i, ast.If) and lens_differ(i.test) and
                                             any(isinstance(x, ast.Raise) for x in i.body) for i in f.own_nodes())
+            if not ok and len(f.params) >= 3:
+                # on wrapper terms: some `raise` (here or in a validation helper) runs exactly under len(bins) != len(new_values)
+                from ..wterm import WT, key as tkey
+                w_ = WT(prog)
+                w_.run(f)
+                la = ('call', ('global', 'len'), (('param', f.params[1]),), ())
+                lb = ('call', ('global', 'len'), (('param', f.params[2]),), ())
+                for gs_, node_ in w_.raises:
+                    for g_ in gs_:
+                        neg_ = False
+                        while isinstance(g_, tuple) and g_ and g_[0] == 'not':
+                            g_, neg_ = g_[1], not neg_
+                        if isinstance(g_, tuple) and g_[0] == 'cmp' and g_[1] in ('NotEq', 'Eq') and {tkey(g_[2]), tkey(g_[3])} == {tkey(la), tkey(lb)}:
+                            if (g_[1] == 'NotEq') != neg_:
+                                ok = True
             rep.add('K2', f, 'reclassify', 'len(bins) == len(new_values) enforced', f.node.lineno, ok,
                     'reclassify must reject bin / new-value lists of different lengths')
             n += 1
